@@ -25,6 +25,7 @@ int16_val = z3.Function("py_int16_val", S, Z)
 chr_of = z3.Function("py_chr", Z, S)
 ord_of = z3.Function("py_ord", S, Z)
 str_of_int = z3.Function("py_str_of_int", Z, S)
+is_ascii = z3.Function("py_isascii", S, z3.BoolSort())
 repr_of_str = z3.Function("py_repr_str", S, S)
 strip_ws = z3.Function("py_strip_ws", S, S)
 lower_of = z3.Function("py_lower", S, S)
@@ -593,6 +594,17 @@ def install(ex):
             except UnicodeError as e:
                 I.throw(type(e).__name__, str(e))
         _undecided("encode of symbolic string")
+
+    @method("str", "isascii")
+    def s_isascii(I, s):
+        """str.isascii: every code point < 128.  Symbolic: an uninterpreted predicate tied to py_ord for
+        one-character strings; for longer strings the sidecar instantiates `isascii(s) => isascii(s[k])`"""
+        if concrete(s):
+            return s.isascii()
+        t = is_ascii(z3_of(s))
+        if I.decide(z3.Length(z3_of(s)) == 1):
+            I.assume(t == (ord_of(z3_of(s)) < 128))
+        return SBool(t)
 
     @method("str", "isdigit")
     def s_isdigit(I, s):
